@@ -107,6 +107,26 @@ def answer (toks : List String) : String :=
     let D := (List.range n).map fun i => bfs n a i
     let d : NetBetw.DistFn := fun i j => (D.getD i []).getD j none
     showRats (NetBetw.nsiBetweennessDef n a (ratFn (rats w)) d (bools src) (nats tg))
+  | ["betwenum", m, w, src, tg] =>
+    -- round 5: the published double sum over the explicitly enumerated shortest paths
+    let M := boolMat m; let n := M.length; let a := adjOf M
+    let D := (List.range n).map fun i => bfs n a i
+    let d : NetBetw.DistFn := fun i j => (D.getD i []).getD j none
+    let wf := ratFn (rats w); let sm := bools src; let tl := nats tg
+    showRats ((List.range n).map fun v => NetBetw.nsiBetweennessEnum n a wf d sm tl v)
+  | ["betwapi", m, w, src, tg, nsi] =>
+    -- round 5: the public method `nsi_betweenness(sources, targets, nsi)`; `none` = default argument
+    let M := boolMat m; let n := M.length; let a := adjOf M
+    let so := if src == "none" then none else some (nats src)
+    let to := if tg == "none" then none else some (nats tg)
+    showRats (NetBetw.apiBetweenness n a (ratFn (rats w)) so to (nsi == "1"))
+  | ["betwcount", m, src, tg] =>
+    -- round 5: interregional betweenness by counting enumerated shortest paths
+    let M := boolMat m; let n := M.length; let a := adjOf M
+    let D := (List.range n).map fun i => bfs n a i
+    let d : NetBetw.DistFn := fun i j => (D.getD i []).getD j none
+    let S := nats src; let T := nats tg
+    showRats ((List.range n).map fun v => NetBetw.interregionalCount n a d S T v)
   | ["sigma", m, w, j] =>
     -- weighted numbers of shortest paths from `j`: by enumeration of all paths, and by recursion
     let M := boolMat m; let n := M.length; let a := adjOf M
